@@ -55,7 +55,20 @@ def _classify(A: Analysis, fi, e: ast.expr) -> str:
         kinds = {_classify(A, fi, v) for v in vals}
         if len(kinds) == 1:
             return kinds.pop()
-    tx = A.xtext(e, fi)
+    ex = A.expand(e, fi)
+
+    class DropNone(ast.NodeTransformer):
+        # `(X if c else None).attr` is only evaluated when the value is X
+        def visit_Attribute(self, n):
+            self.generic_visit(n)
+            if isinstance(n.value, ast.IfExp):
+                b, o = n.value.body, n.value.orelse
+                if isinstance(o, ast.Constant) and o.value is None:
+                    n.value = b
+                elif isinstance(b, ast.Constant) and b.value is None:
+                    n.value = o
+            return n
+    tx = norm(DropNone().visit(ex))
     if tx.endswith(".current_commit.hash"):
         bt = tx[: -len(".current_commit.hash")]
         return "HEAD"
@@ -133,9 +146,15 @@ def rule_sel1(A: Analysis, rep):
     # (a) no git / no commits -> newest
     a_rets = [n for n in rets if rtext(n) == latest]
     conds = []
-    for n in a_rets:
-        for c in A.path_guards(g, g.entry, n, fi):
-            conds.append(c)
+    A.split_none_tests = True     # `x is None` with x = (a if c else None) is read as (c and a is None) or not c
+    try:
+        for n in a_rets:
+            for c in A.path_guards(g, g.entry, n, fi):
+                conds.append(c)
+    finally:
+        A.split_none_tests = False
+    from ..analysis import _simplify
+    conds = _simplify(conds)
     head = "%s.current_commit" % ctx
     for nm in {n.id for n in ast.walk(fi.node) if isinstance(n, ast.Name)}:
         v = A.single_def_value(fi, nm)
